@@ -1,3 +1,3 @@
 From Coq Require Extraction ExtrOcamlBasic ExtrOcamlString.
-From MechV Require Import Model.LoaderJ.
+From MechV Require Import Model.ContainerJ.
 Extraction "ocaml/C07/model.ml" run_line.
